@@ -425,11 +425,16 @@ fn check(p: &props::Prop, args: &[String]) -> i32 {
             println!("KNOWN-FINDING: property={} {} (not hit by this run)", p.id, k.what);
         }
     }
+    // Runs the harness could not bring to an orderly end.  Alone they are a harness error (exit 2);
+    // next to violations of the property they are reported but do not mask the violation (code
+    // that breaks the property often also leaves tasks parked for ever).
     if !harness_errors.is_empty() {
         for e in harness_errors.iter().take(10) {
             eprintln!("HARNESS ERROR: {e}");
         }
-        return 2;
+        if new_violations.is_empty() && aborts.is_empty() {
+            return 2;
+        }
     }
     if let Some((path, seed, why)) = aborts.first() {
         println!("  worker process died while running seed {seed}: {}", why.lines().next().unwrap_or(""));
